@@ -195,6 +195,8 @@ def do_lifecycle(step):
                     (X * X).log()
                     X.inverse().to_Matrix()
                     X.Ad()
+                    x.ad()
+                    x.to_Matrix()
                     if G is lie.SE3Quat:
                         # three more rotation angles per round through the se(3) Jacobians (more than a thousand distinct ones per prelude)
                         for s3 in (0.37, 0.61, 0.83):
@@ -204,7 +206,7 @@ def do_lifecycle(step):
     with contextlib.redirect_stdout(io.StringIO()):
         try:
             if name == "many_calls":
-                some_calls(400)
+                some_calls(700)
             elif name == "probe_first":
                 PROBES[_CURRENT_PROBE[0]]()
             elif name == "dropped_product_groups":
